@@ -918,6 +918,53 @@ func collideCases(r *hx.Rand) {
 	}
 }
 
+// subsecCases: one point measured in experiments whose run stamps lie within ONE second (fractions; offsets that
+// normalise into the same second): under replace the later INSTANT wins, whatever the adding and visiting order;
+// under combine the Date is the later instant.
+func subsecCases(r *hx.Rand) {
+	groups := [][]string{
+		{"2022-03-01T10:00:00.25Z", "2022-03-01T10:00:00.75Z"},
+		{"2022-03-01T10:00:00Z", "2022-03-01T10:00:00.999999999Z"},
+		{"2022-03-01T10:00:00.5Z", "2022-03-01T11:00:00.25+01:00", "2022-03-01T05:00:00.75-05:00"},
+		{"20220301T100000", "2022-03-01T10:00:00.000000001Z"},
+		{"2022-03-01T10:00:00.1Z", "2022-03-01T10:00:00.10000001Z", "2022-03-01T10:00:00.09Z"},
+	}
+	mk := func(bench, role, exp string, v float64) res {
+		return res{table: []string{"amd64", "linux"}, bench: bench, exp: exp, ser: stampsA[0], role: role, nh: "n0", dh: "d0", units: []string{"B/op"}, vals: []float64{v}}
+	}
+	run := func(g []string, two bool, tags []string) {
+		var rs []res
+		for j, e := range g {
+			rs = append(rs, mk("Foo", "num", e, float64(10*(j+1))), mk("Foo", "den", e, float64(100*(j+1))))
+			if two && j < 2 {
+				rs = append(rs, mk("Bar", "num", e, float64(7*(j+1))), mk("Bar", "den", e, float64(70*(j+1))))
+			}
+		}
+		// keep the case small enough for all permutations when possible
+		for pol := 0; pol < 2; pol++ {
+			seriesCaseN(rs, 0, pol, r, tags, 4)
+		}
+	}
+	for _, g := range groups {
+		run(g[:2], false, []string{"corpus", "subsec", "multiexp"})
+	}
+	n := hx.N(12, 150)
+	for i := 0; i < n; i++ {
+		g := append([]string(nil), groups[r.Intn(len(groups))]...)
+		for a := len(g) - 1; a > 0; a-- {
+			b := r.Intn(a + 1)
+			g[a], g[b] = g[b], g[a]
+		}
+		viaReader = r.Chance(1, 3)
+		tags := []string{"subsec", "multiexp"}
+		if viaReader {
+			tags = append(tags, "reader")
+		}
+		run(g, r.Bool(), tags)
+		viaReader = false
+	}
+}
+
 // readerCases: the same result sets, but fed through one Reader over one log whose configuration lines change
 // between blocks (role, experiment, series stamp, hashes, table keys); units that the Reader does not rescale.
 func readerCases(r *hx.Rand) {
@@ -1658,6 +1705,8 @@ func genSample(r *hx.Rand, n int, kind int) []float64 {
 			out[i] = base + float64(r.Intn(3))
 		case 3: // awkward mantissas
 			out[i] = (0.5 + r.Float()*3)
+		case 6: // subnormal positives: small multiples of the smallest float
+			out[i] = float64(1+r.Intn(8)) * math.SmallestNonzeroFloat64
 		case 5: // magnitudes whose ratios overflow to +Inf / underflow to 0
 			out[i] = []float64{1e300, 1e-300, 1, 2, 1e300}[r.Intn(5)]
 		default: // zeros and negatives
@@ -1691,6 +1740,31 @@ func bootstrapCases(r *hx.Rand) {
 	for i := 0; i < nh; i++ {
 		n := []int{2, 4, 10, 3, 5}[r.Intn(5)]
 		bootCase(genSample(r, 1+r.Intn(4), 5), genSample(r, 1+r.Intn(4), 5), []float64{0.5, 0, 0.8, 0.6, 0.9}[r.Intn(5)], n, "n"+strconv.Itoa(n)+"+huge")
+	}
+	// subnormal samples in cells of even length (the median averages two of them)
+	sub := func(ks ...int) []float64 {
+		out := make([]float64, len(ks))
+		for i, k := range ks {
+			out[i] = float64(k) * math.SmallestNonzeroFloat64
+		}
+		return out
+	}
+	bootCase(sub(4, 4, 4, 4), sub(1, 1, 1, 1), 0.9, 5, "corpus+subnormal")
+	bootCase(sub(6, 6, 8, 8), sub(1, 1, 2, 2), 0.9, 5, "corpus+subnormal")
+	bootCase([]float64{1e-300, 1e-300}, sub(1, 1), 0.9, 5, "corpus+subnormal")
+	bootCase(sub(3, 5), sub(1, 3, 5, 7), 0.8, 10, "corpus+subnormal")
+	nsub := hx.N(150, 2000)
+	for i := 0; i < nsub; i++ {
+		n := []int{2, 3, 5, 10, 4}[r.Intn(5)]
+		nu := genSample(r, 2*(1+r.Intn(3)), 6)
+		if r.Chance(1, 4) {
+			nu = genSample(r, 2*(1+r.Intn(3)), 3)
+			for j := range nu {
+				nu[j] *= 1e-300
+			}
+		}
+		de := genSample(r, 2*(1+r.Intn(3)), 6)
+		bootCase(nu, de, []float64{0.9, 0.8, 0.95, 0.99, 0.6}[r.Intn(5)], n, "n"+strconv.Itoa(n)+"+subnormal")
 	}
 	nbig := hx.N(6, 60)
 	for i := 0; i < nbig; i++ {
@@ -1930,6 +2004,7 @@ func main() {
 	readerCases(r)
 	dupUnitCases(r)
 	collideCases(r)
+	subsecCases(r)
 	nl := hx.N(60, 1000)
 	for i := 0; i < nl; i++ {
 		rs, nt, tags := genSeries(r, 6+r.Intn(20))
